@@ -15,8 +15,8 @@ ex = re.findall(r'== demo (WITH|WITHOUT) patch\nexit=(\d+)', log)
 meta['confirmed_by_me'] = {
     'stable_tests_with_patch': m.group(1) if m else 'not re-run',
     'demo_exit': {k: int(v) for k, v in ex},
-    'ran': ['tools/verify_seed.sh ' + sid + (' ' + var if var else '') + '  (build with patch; pinned suite vs BASELINE.json stable_pass; demo with and without the patch, in the scratch worktree /tmp/seed-' + sid + '/repo)',
-            'tools/try_seed.sh seeded/' + name + '/patch.diff quick <checks>  (git -C /repo apply; ./check ...; git -C /repo checkout -- .)'],
+    'ran': ['tools/verify_seed.sh ' + sid + (' ' + var if var else '') + '  (build with patch; pinned suite vs BASELINE.json stable_pass; demo with and without the patch, in the shared scratch worktree /tmp/verify/repo at /repo HEAD)',
+            'tools/try_seed.sh seeded/' + name + '/patch.diff quick <checks>  (scratch copy /tmp/try/{repo,verif}: git apply there, ./check ..., undone; TRY_IN_REPO=1 does it in /repo itself)'],
 }
 meta['detection'] = notes
 json.dump(meta, open(os.path.join(dst, 'meta.json'), 'w'), indent=1)
